@@ -515,3 +515,98 @@ def gen(profile: str, seed: int) -> dict:
     if callable(p):
         return p(seed)
     return gen_bus(seed, p, profile)
+
+
+def resched(sc: dict, seed: int) -> dict:
+    """Schedule search: keep the program, re-draw only its timing (S2/S3/S4): every pause duration, every yield
+    count, the bus iteration order and the stalls."""
+    import copy
+    r = random.Random(seed * 2654435761 % (2 ** 31) + 13)
+    sc = copy.deepcopy(sc)
+    for lst in (sc['handlers'], sc['callers']):
+        for h in lst:
+            for op in h.get('prog', []):
+                if op[0] == 'pause' and op[1] < 1.4:
+                    op[1] = dur(r)
+                elif op[0] == 'yield':
+                    op[1] = r.choice([1, 1, 2, 3])
+    nb = len(sc['buses'])
+    sc['bus_order'] = {'perm': r.sample(range(nb), nb), 'rotate_every': r.choice([0, 0, 0, 3, 7])}
+    f = sc.setdefault('faults', {})
+    if r.random() < 0.3:
+        f['stalls'] = sorted([[round(r.choice([0.0, 0.01, 0.05, 0.1, 0.5]) + r.random() * 0.1, 6), r.choice([0.001, 0.05, 0.11, 0.3])] for _ in range(r.choice([1, 2]))])
+    else:
+        f.pop('stalls', None)
+    return sc
+
+
+SCHED_K = 16
+
+
+def gen_sched(profile: str, seed: int) -> dict:
+    """16 consecutive seeds = one program under 16 schedules (variant 0 = as generated)."""
+    base, variant = seed // SCHED_K, seed % SCHED_K
+    sc = gen(profile, base)
+    if variant:
+        sc = resched(sc, seed)
+    sc['profile'] = 'sched:' + profile
+    sc['seed'] = seed
+    sc['program'] = base
+    return sc
+
+
+def gen_timeout_enum(seed: int) -> dict:
+    """C10 fault-point enumeration: take a base program without short timeouts, run it once to learn the distinct
+    handler-relative instants at which its handlers do something, then give the event of one activation a timeout
+    equal to one of those instants -1us / exactly / +1us.  96 consecutive seeds walk through the instants of one base."""
+    from .world import run_scenario
+    from .facts import Facts
+    base, i = seed // 96, seed % 96
+    knobs = dict(PROFILES['timeouts'])
+    knobs['short_timeouts'] = None
+    knobs['long_p'] = 0.0
+    sc = gen_bus(base, knobs, 'timeout_enum')
+    w, res = run_scenario(sc)
+    F = Facts(sc, w.recs, w.final, res)
+    pts = []
+    for a in sorted(F.acts.values(), key=lambda a: a.enter_seq):
+        if sc['handlers'][a.hi].get('kind', 'async') not in ('async', 'amethod', 'aclassmethod'):
+            continue
+        rel = set()
+        for r_ in F.recs:
+            if r_[2] in ('new', 'disp') and r_[3 if r_[2] == 'disp' else 5] == a.id:
+                rel.add(round(r_[1] - a.t_enter, 9))
+        for aw in F.awaits:
+            if aw.actor == a.id:
+                rel.add(round(aw.tb - a.t_enter, 9))
+                if aw.te is not None:
+                    rel.add(round(aw.te - a.t_enter, 9))
+        if a.t_exit is not None:
+            rel.add(round(a.t_exit - a.t_enter, 9))
+        sid = F.sid.get(a.ev, '')
+        for t in sorted(rel):
+            if t > 0:
+                pts.append((sid, t))
+    sc['seed'] = seed
+    sc['program'] = base
+    if not pts:
+        return sc
+    sid, t = pts[(i // 3) % len(pts)]
+    tmo = round(max(1e-6, t + (-1e-6, 0.0, 1e-6)[i % 3]), 9)
+    # locate the dispatch op that creates the event with this structural id
+    last = sid.split('/')[-1]
+    try:
+        if '/' not in sid:
+            ci, opi = last[1:].split('.')
+            op = sc['callers'][int(ci)]['prog'][int(opi)]
+        else:
+            _, hpart, opi = last.split('.')
+            op = sc['handlers'][int(hpart[1:])]['prog'][int(opi)]
+        if op[0] in ('dispatch', 'dispatch_await'):
+            op[3] = dict(op[3] or {}, timeout=tmo)
+    except Exception:
+        pass
+    return sc
+
+
+PROFILES['timeout_enum'] = gen_timeout_enum
